@@ -101,12 +101,13 @@ class AsyncioTransportStreamSocketAdapter(AsyncStreamTransport):
                 pass
             finally:
                 self.__transport.close()
+        close_waiter = asyncio.ensure_future(self.__protocol._get_close_waiter())
         try:
-            await asyncio.shield(self.__protocol._get_close_waiter())
+            await asyncio.shield(close_waiter)
         except asyncio.CancelledError:
             # transport.close() waits for the write buffer to be flushed, which never happens if the peer does not read.
             # aclose() has been cancelled (e.g. aclose_forcefully()): close abruptly, as documented.
-            if not self.__protocol._get_close_waiter().done():
+            if not close_waiter.done():
                 self.__transport.abort()
             raise
         except OSError:
